@@ -47,8 +47,10 @@ func (e *ifExpr) SubMergers(subs []Expr) []SubMerge {
 	matched := false
 	for i, sub := range subs {
 		if e.String() == sub.String() {
+			// only the first match, see aggregate.SubMergers
 			sms[i] = e.subMerge
 			matched = true
+			break
 		}
 	}
 	if matched {
